@@ -14,7 +14,9 @@ CHECKS = {
             "2-4 callers x 1-3 requests over pooled HTTP/1.1 and HTTP/2 connections (direct, proxies) with early closes, faults, a cancellation, "
             "Connection: close, HTTP/1.0, server-side closes and delayed delivery of server bytes; every response must carry the token of its own "
             "request and no request head may start on a connection whose previous exchange is unfinished or announced close.",
-            "asyncio only; schedules sampled; the server is well-behaved by construction.",
+            "harness-scheduled asyncio and trio runs (choice lists, late-loop and two-actions-at-once schedules); in undisturbed runs no request may "
+            "fail; layer real-concurrent repeats token echo / no-failure with 2-6 async callers over real sockets (schedule not controlled there); "
+            "schedules sampled; the server is well-behaved by construction.",
             "3 C01"),
     "C02": ("exploration",
             "Hypothesis-generated responses x bounded-exhaustive cut/truncation positions against the server plan's ground truth",
@@ -80,7 +82,8 @@ CHECKS = {
             "All 1080 cells of scheme x port form x proxy mode x http1/http2 x ALPN outcome x sni (sync and async) and sampled sequential "
             "histories over origins differing in one component: connect target / CONNECT target / SOCKS command, TLS layers, SNI, ALPN offer "
             "and spoken protocol are read off the simulated network's trace and the peers' own parsers.",
-            "TLS is a marker layer; tunnel SNI override and the https-proxy hop's server name are outside the oracle.",
+            "TLS is a marker layer on SimNet; layer real-backends performs real handshakes through httpcore's own backends and judges server name "
+            "and ALPN list parsed from the ClientHello; tunnel SNI override and the https-proxy hop's server name are outside the oracle.",
             "3 C10"),
     "C11": ("exploration",
             "Hypothesis-generated proxy configurations, requests and proxy replies; oracle = the proxy model's own parsers plus planted marker strings",
@@ -94,7 +97,9 @@ CHECKS = {
             "2-8 concurrent requests on one HTTP/2 connection; the peer interleaves HEADERS/DATA/RST_STREAM/SETTINGS(MAX_CONCURRENT_STREAMS up/down)/PING "
             "frame by frame in scheduler-chosen order; callers read fully, partly or never. Each caller must get exactly its own stream's data, the "
             "open-stream count at every stream-opening HEADERS must respect the ACKed limit, non-reset streams must complete.",
-            "asyncio driver; MAX_CONCURRENT_STREAMS=0 not generated; interleavings sampled.",
+            "asyncio and trio drivers; layer pool-histories: undisturbed HTTP/2 histories through the pool (evictions, keep-alive 0, bursts) - no "
+            "request may fail because of what siblings or other origins did; layer real-concurrent: the same over real sockets; "
+            "MAX_CONCURRENT_STREAMS=0 not generated; interleavings sampled.",
             "3 C12"),
     "C13": ("exploration",
             "Hypothesis-generated upload/download scenarios against a peer that keeps its own window and frame-size accounting, plus an enumerated grid of sizes x policies; starvation decided at quiescence",
@@ -133,7 +138,8 @@ CHECKS = {
             "101 / CONNECT-2xx hand-over: for d<=6 every subset of cut positions around the head end and every max_bytes sequence over "
             "{1,2,64} up to length 3; random layer with up to 200 kB leading data, interleaved writes and reads; tunnel proxy CONNECT "
             "reply head under every single cut.",
-            "Peer echo stands for live data; reads are only issued when the model says bytes are pending.",
+            "Peer echo stands for live data; reads are only issued when the model says bytes are pending. Layer real-backends: 101 Upgrade over "
+            "real sockets (plain, TLS, TLS-in-TLS, SOCKS, CONNECT) through httpcore's own backends with a segmentation-independent echo.",
             "3 C17"),
     "C18": ("translation_validation",
             "exhaustive line-by-line re-translation with the repository's own unasync_line + generated sync/async differential",
